@@ -21,23 +21,24 @@ EXPECTED = [('C06',
   'derivative',
   ['poly', '*diffvars'],
   ['poly = v0 = numpoly.aspolynomial(poly)',
-   'for v1 in diffvars:\n'
-   '    if isinstance(v1, str):\n'
-   '        v2 = poly.names.index(v1)\n'
-   '    elif isinstance(v1, int):\n'
-   '        v2 = v1\n'
+   'v1 = poly.names',
+   'for v2 in diffvars:\n'
+   '    if isinstance(v2, (int, numpy.integer)):\n'
+   '        v2 = v1[v2]\n'
+   '    if isinstance(v2, str):\n'
+   '        v3 = poly.names.index(v2)\n'
    '    else:\n'
-   '        v1 = numpoly.aspolynomial(v1)\n'
-   '        v3, v4 = numpoly.remove_redundant_coefficients(v1.exponents, v1.coefficients)\n'
-   '        v3, v5 = numpoly.remove_redundant_names(v3, v1.names)\n'
-   "        assert v5 is not None and len(v5) == 1, 'one at the time'\n"
-   "        assert numpy.all(v3 == 1), 'derivative variable assumes singletons'\n"
-   '        v2 = poly.names.index(v5[0])\n'
-   '    v3 = poly.exponents\n'
-   '    v6 = [(v7[v2] * v8.T).T for v7, v8 in zip(v3, poly.coefficients)]\n'
-   '    v3[:, v2] -= 1\n'
-   '    assert not numpy.any(v3 < 0)\n'
-   '    poly = numpoly.ndpoly.from_attributes(exponents=v3, coefficients=v6, names=v0.names, retain_coefficients=False)\n'
+   '        v2 = numpoly.aspolynomial(v2)\n'
+   '        v4, v5 = numpoly.remove_redundant_coefficients(v2.exponents, v2.coefficients)\n'
+   '        v4, v6 = numpoly.remove_redundant_names(v4, v2.names)\n'
+   "        assert v6 is not None and len(v6) == 1, 'one at the time'\n"
+   "        assert numpy.all(v4 == 1), 'derivative variable assumes singletons'\n"
+   '        v3 = poly.names.index(v6[0])\n'
+   '    v4 = poly.exponents\n'
+   '    v7 = [(v8[v3] * v9.T).T for v8, v9 in zip(v4, poly.coefficients)]\n'
+   '    v4[:, v3] -= 1\n'
+   '    assert not numpy.any(v4 < 0)\n'
+   '    poly = numpoly.ndpoly.from_attributes(exponents=v4, coefficients=v7, names=v0.names, retain_coefficients=False)\n'
    '    poly, v0 = numpoly.align_polynomials(poly, v0)',
    'return poly']),
  ('C06',
